@@ -182,8 +182,12 @@ def run_pair(prog, na, nb):
         elif kind == "Contains":
             check(res, prefix, "compare=Contains", "Contains only when the other log is a proper prefix")
             if idx != [nb - 1]:
-                out["cex"].append({"what": "compare=Contains indices %r" % (idx,), "a": None, "b": None,
-                                   "expect": "indices == [len(B)-1]"})
+                mm = H.witness_for(res)
+                if mm is not None:
+                    out["obligations"] += 1
+                    out["cex"].append({"what": "compare=Contains indices", "expect": "indices == [len(B)-1], got %r" % (idx,),
+                                       "a": [mm.eval(x, model_completion=True).as_long() for x in ida],
+                                       "b": [mm.eval(x, model_completion=True).as_long() for x in idb]})
         elif kind == "Unknown":
             check(res, z3.Not(z3.Or(eqseq, prefix)), "compare=Unknown", "Unknown only when neither equal nor prefix")
         else:
@@ -217,6 +221,8 @@ def finding_key(cex, nat):
     """role-based key of a confirmed counterexample (not the concrete ids)"""
     a, b = cex["a"], cex["b"]
     what = cex["what"]
+    if what == "compare=Contains indices":
+        return "compare=Contains|reported position is not the other log's last index"
     if what.startswith("compare="):
         last_match = len(a) >= len(b) and len(b) > 0 and a[len(b) - 1] == b[len(b) - 1]
         rel = "lenA>lenB" if len(a) > len(b) else ("lenA=lenB" if len(a) == len(b) else "lenA<lenB")
@@ -296,6 +302,8 @@ def confirm(cex, nat):
     what = cex["what"]
     eqseq = a == b
     prefix = len(b) < len(a) and a[:len(b)] == b
+    if what == "compare=Contains indices":
+        return nat["compare"]["kind"] == "Contains" and nat["compare"].get("indices") != [len(b) - 1]
     if what.startswith("compare="):
         k = nat["compare"]["kind"]
         if k == "Equal":
